@@ -77,13 +77,16 @@ def run(op):
                             location="file:///a.xsd" if (i % 2 == 0 or op["use_names"]) else "file:///b.xsd")
                 classes.append(obj)
             container.extend(classes)
+            # the handler sees the classes in the container's iteration order (buckets per qname)
+            ordered = list(container)
+            order = [next(i for i, c in enumerate(classes) if c is o) for o in ordered]
             h = RenameDuplicateClasses(container)
             if h.use_names != op["use_names"]:
                 return {"err": "harness", "msg": "use_names mismatch"}
             h.run()
             f = filters_for(op.get("conv", {}))
-            return {"ok": [c.name for c in classes], "qnames": [c.qname for c in classes],
-                    "class_names": [f.class_name(c.name) for c in classes]}
+            return {"ok": [c.name for c in ordered], "qnames": [c.qname for c in ordered], "order": order,
+                    "class_names": [f.class_name(c.name) for c in ordered]}
         raise KeyError(k)
     except RecursionError:
         return {"err": "RecursionError"}
